@@ -585,6 +585,8 @@ def run_index(seed, idx, tier):
             rec["facts"]["stage"] = _stage_of(sc)
         out.append(rec)
 
+    # (0) kernel-argument probes: family idx sweeps kernel idx % len(KERNELS) over every array flavour x dtype
+    out.extend(kernel_sweep(seed, idx))
     # (a) fault-free history
     sc0 = copy.deepcopy(fam)
     sc0["ops"][op_index]["fault"] = None
@@ -631,6 +633,38 @@ def run_index(seed, idx, tier):
     return out
 
 
+def kernel_sweep(seed, idx):
+    """All array flavours x dtypes x sizes for one connector function; one record per call."""
+    import piquasso as pq
+
+    name = KERNELS[idx % len(KERNELS)]
+    conn = pq.NumpyConnector()
+    recs = []
+    log = EventLog()
+    counters = {"kernel_probes": 0, "kernel_probe_outcomes": {}}
+    viol = None
+    for order in ("C", "F", "strided", "readonly"):
+        for dtype in ("float64", "complex128", "float32", "complex64"):
+            for n in (2, 4, 6):
+                op = {"op": "kernel", "name": name, "n": n, "kseed": (seed + idx) % 10**6, "order": order, "dtype": dtype}
+                try:
+                    outcome = kernel_probe(conn, op)
+                except Violation as v:
+                    outcome = "violation"
+                    if viol is None:
+                        viol = (v, op)
+                log.add(name, order, dtype, n, outcome)
+                counters["kernel_probes"] += 1
+                k = "%s:%s" % (name, outcome.split(":")[0])
+                counters["kernel_probe_outcomes"][k] = counters["kernel_probe_outcomes"].get(k, 0) + 1
+    rec = {"status": "pass", "digest": log.digest(), "nontrivial": True, "counters": counters, "evaluations": counters["kernel_probes"]}
+    if viol is not None:
+        v, op = viol
+        rec.update(status="violation", sig=v.signature, detail=v.detail, facts={"kernel": name, "stage": "kernel"}, scenario={"check": "c12", "kernel_only": op})
+    recs.append(rec)
+    return recs
+
+
 def _callee_stage(name):
     if name == "_validate":
         return "validate"
@@ -659,6 +693,14 @@ def _stage_of(sc):
 
 
 def replay(sc):
+    if "kernel_only" in sc:
+        import piquasso as pq
+
+        try:
+            kernel_probe(pq.NumpyConnector(), sc["kernel_only"])
+        except Violation as v:
+            return {"status": "violation", "sig": v.signature, "detail": v.detail, "digest": None}
+        return {"status": "pass", "digest": None}
     rec = judge(sc)
     rec.pop("_history", None)
     rec.pop("stats", None)
